@@ -259,6 +259,18 @@ func (env *SEnv) call(e *SExpr) *SVal {
 	case "anyelems":
 		// the element store of all []any slices in the current state (to be passed to state-independent spec functions)
 		return &SVal{T: u.comp(env.cur, ecomp(SAny))}
+	case "addrelems":
+		// the element store of all slices of pointers in the current state
+		return &SVal{T: u.comp(env.cur, ecomp(SAddr))}
+	case "ptrat":
+		// ptrat(EP, s, i): element i of the pointer slice s in element store EP (an address; compare with nil)
+		ep := env.eval(e.Args[0])
+		sl := env.eval(e.Args[1])
+		i := env.evalI(e.Args[2])
+		if sl.T.Sort != SSlice {
+			env.fail("ptrat: second argument must be a slice")
+		}
+		return &SVal{T: Select(Select(ep.T, SArr(sl.T)), ElemIdx(SOff(sl.T), i))}
 	case "elemat":
 		// elemat(EA, s, i): element i of the []any slice s in element store EA
 		ea := env.eval(e.Args[0])
@@ -332,7 +344,7 @@ func (env *SEnv) tryType(name string) (rt RType, ok bool) {
 		}
 	}()
 	switch name {
-	case "Int", "Bool", "Bytes", "CV", "CVList", "AnySet", "AnyMap", "AnyElems", "Data":
+	case "Int", "Bool", "Bytes", "CV", "CVList", "AnySet", "AnyMap", "AnyElems", "AddrElems", "Data":
 		return RType{}, false
 	}
 	rt = env.u.eng.resolveType(&STypeExpr{Kind: "name", Name: name})
